@@ -170,3 +170,167 @@ def c01_family(seed, quick):
     for _ in range(150 if quick else 3000):
         out.append(progs.gen_mixed(rr))
     return list(dict.fromkeys(out))
+
+
+def _kinds(seed, tag, kinds2, kinds3, per2, per3, rnd_gen=None, rnd_n=0):
+    r = Rng(seed ^ progs.hash_str(tag))
+    out = []
+    for k in kinds2:
+        out += exhaustive(k, 2, 2, per2, r.fork(k + "2"))
+    for k in kinds3:
+        out += exhaustive(k, 3, 1, per3, r.fork(k + "3"))
+    rr = r.fork("rnd")
+    for _ in range(rnd_n):
+        out.append(rnd_gen(rr))
+    return list(dict.fromkeys(out))
+
+
+def c07_family(seed, quick):
+    return _kinds(seed, "C07", ["mutex", "rwlock"], ["mutex", "rwlock"], 300 if quick else 6000,
+                  150 if quick else 3000, lambda r: progs.gen_sync(r, atomics=False), 150 if quick else 3000)
+
+
+def c08_family(seed, quick):
+    return _kinds(seed, "C08", ["condvar", "notify", "park"], ["condvar", "notify", "park"],
+                  200 if quick else 4000, 100 if quick else 2000, lambda r: progs.gen_wait(r, channels=False), 100 if quick else 2000)
+
+
+def c09_family(seed, quick):
+    return _kinds(seed, "C09", ["channel"], ["channel"], 300 if quick else 5000, 300 if quick else 5000,
+                  gen_chan, 100 if quick else 2000)
+
+
+def c11_family(seed, quick):
+    return _kinds(seed, "C11", ["arc"], ["arc"], 400 if quick else 8000, 400 if quick else 8000,
+                  progs.gen_arc, 150 if quick else 3000) + arc_raw_programs()
+
+
+def c05_family(seed, quick):
+    out = _kinds(seed, "C05", ["mutex", "condvar", "notify", "park", "channel"],
+                 ["mutex", "park", "notify"], 120 if quick else 2500, 80 if quick else 1500)
+    out += deadlock_shapes()
+    return list(dict.fromkeys(out))
+
+
+def c10_family(seed, quick):
+    r = Rng(seed ^ 0xC10)
+    out = leak_programs(r, 300 if quick else 5000)
+    out += _kinds(seed, "C10", ["arc", "channel"], ["arc"], 150 if quick else 3000, 100 if quick else 2000)
+    return list(dict.fromkeys(out))
+
+
+def gen_chan(r):
+    vs = ValueSource()
+    n = 2 + r.below(2)
+    sends = [[f"send 0 {vs.fresh('q')}" for _ in range(1 + r.below(2))] for _ in range(n - 1)]
+    total = sum(len(s) for s in sends)
+    k = r.below(total + 2)
+    recvs = [r.choice(["recv 0", "tryrecv 0"]) if i < total else "tryrecv 0" for i in range(k)]
+    recvs.append("droprx 0")
+    if r.chance(1, 3):
+        # the receiver lives in a spawned thread
+        return render({"q": 1}, frame(sends[1:] + [recvs], sends[0], []))
+    return render({"q": 1}, frame(sends, recvs, []))
+
+
+def arc_raw_programs():
+    return [
+        "cfg | T0: anew 0; araw 0; afromraw 0; acount 0; adrop 0",
+        "cfg | T0: anew 0; ainc 0; acount 0; adec 0; acount 0; adrop 0",
+        "cfg | T0: anew 0; aclone 0 1; apeq 0 1; spawn 1; adrop 0; join 1 | T1: araw 1; afromraw 1; agetmut 1; adrop 1",
+        "cfg | T0: anew 0; aclone 0 1; spawn 1; ainc 0; adec 0; adrop 0; join 1 | T1: acount 1; adrop 1",
+        "cfg | T0: anew 0; anew 1; apeq 0 1; aclone 0 2; apeq 0 2; adrop 0; adrop 1; aunwrap 2",
+    ]
+
+
+def deadlock_shapes():
+    return [
+        "cfg m=2 | T0: spawn 1; lock 0; lock 1; unlock 1; unlock 0; join 1 | T1: lock 1; lock 0; unlock 0; unlock 1",
+        "cfg m=2 | T0: spawn 1; lock 0; lock 1; unlock 1; unlock 0; join 1 | T1: lock 0; lock 1; unlock 1; unlock 0",
+        "cfg q=1 | T0: spawn 1; recv 0; join 1; droprx 0 | T1: send 0 1",
+        "cfg q=1 | T0: spawn 1; recv 0; recv 0; join 1; droprx 0 | T1: send 0 1",
+        "cfg | T0: spawn 1; join 1 | T1: park",
+        "cfg | T0: spawn 1; unpark 1; join 1 | T1: park",
+        "cfg | T0: spawn 1; unpark 1; join 1 | T1: park; park",
+        "cfg m=1 c=1 v=1 | T0: spawn 1; lock 0; cwr 0 1; unlock 0; join 1 | T1: lock 0; crd 0; ifeq 1 v:0 1; cvwait 0 0; unlock 0",
+        "cfg m=1 c=1 v=1 | T0: spawn 1; lock 0; cwr 0 1; unlock 0; cvone 0; join 1 | T1: lock 0; crd 0; ifeq 1 v:0 1; cvwait 0 0; unlock 0",
+        "cfg m=1 | T0: spawn 1; lock 0; join 1; unlock 0 | T1: lock 0; unlock 0",
+        "cfg l=1 | T0: spawn 1; rd 0; join 1; unrd 0 | T1: wr 0; unwr 0",
+        "cfg l=1 | T0: spawn 1; rd 0; join 1; unrd 0 | T1: rd 0; unrd 0",
+        "cfg m=1 | T0: spawn 1; spawn 2; lock 0; unlock 0; join 1; join 2 | T1: lock 0; unlock 0; park | T2: unpark 1",
+        "cfg m=1 | T0: spawn 1; lock 0; unpark 1; unlock 0; join 1 | T1: lock 0; unlock 0",
+    ]
+
+
+def leak_programs(r, n):
+    out = []
+    for _ in range(n):
+        k = r.below(4)
+        if k == 0:
+            # arc handles moved to threads, dropped or leaked
+            nt = 2 + r.below(2)
+            main = ["anew 0"] + [f"aclone 0 {t}" for t in range(1, nt)] + [f"spawn {t}" for t in range(1, nt)]
+            if r.chance(4, 5):
+                main.append("adrop 0")
+            main += [f"join {t}" for t in range(1, nt)]
+            ths = [main]
+            for t in range(1, nt):
+                ths.append([f"adrop {t}"] if r.chance(3, 4) else ["acount %d" % t])
+            out.append(render({}, ths))
+        elif k == 1:
+            ops = []
+            for s in range(1 + r.below(3)):
+                ops.append(f"tnew {s}" if r.chance(1, 2) else f"alloc {s}")
+            for s in range(len(ops)):
+                if r.chance(3, 4):
+                    ops.append(f"tdrop {s}" if ops[s].startswith("tnew") else f"dealloc {s}")
+            t1 = [o for o in ops if r.chance(1, 2) and o.startswith(("tdrop", "dealloc"))]
+            m = [o for o in ops if o not in t1]
+            # the creation must happen before the spawn; keep it simple: main creates, thread drops
+            out.append(render({}, [[o for o in m if o.startswith(("tnew", "alloc"))] + ["spawn 1"]
+                                   + [o for o in m if not o.startswith(("tnew", "alloc"))] + ["join 1"], t1]))
+        elif k == 2:
+            out.append(gen_chan(r))
+        else:
+            # CAS-guarded drop: exactly one of two threads drops the handle
+            out.append("cfg x=1 | T0: anew 0; spawn 1; cas 0 0 1 ar acq; ifeq 1 ok:0 1; adrop 0; join 1 "
+                       "| T1: cas 0 0 1 ar acq; ifeq 1 ok:0 1; adrop 0")
+    return out
+
+
+def race_sync_family(seed, quick):
+    """C04, synchronisation through blocking primitives: the cell is written before / read after"""
+    out = []
+    idioms = [
+        # (cfg, publisher ops after the write, subscriber ops before the read)
+        ({"m": 1}, ["lock 0", "unlock 0"], ["lock 0", "unlock 0"]),
+        ({"l": 1}, ["wr 0", "unwr 0"], ["rd 0", "unrd 0"]),
+        ({"q": 1}, ["send 0 1"], ["recv 0"]),
+        ({"q": 1}, ["send 0 1"], ["tryrecv 0"]),
+        ({"n": 1}, ["nnotify 0"], ["nwait 0"]),
+        ({}, ["unpark 1"], ["park"]),
+        ({}, ["unpark 1"], []),
+        ({}, [], []),
+    ]
+    for cfg, pub, sub in idioms:
+        for wfirst in (True, False):
+            c = dict(cfg)
+            c["c"] = 1
+            a = ["cwr 0 5"] if wfirst else ["crd 0"]
+            b = ["crd 0"] if wfirst else ["cwr 0 6"]
+            main = a + pub
+            t1 = sub + b
+            prog = frame([t1], main, [])
+            if "q" in cfg:
+                prog[1].append("droprx 0")
+            out.append(render(c, prog))
+            # the access placed before the synchronisation on the subscriber side: a race
+            prog2 = frame([b + sub], main, [])
+            if "q" in cfg:
+                prog2[1].append("droprx 0")
+            out.append(render(c, prog2))
+    # join is an edge, spawn is an edge
+    out.append("cfg c=1 | T0: cwr 0 1; spawn 1; join 1; crd 0 | T1: crd 0; cwr 0 2")
+    out.append("cfg c=1 | T0: spawn 1; cwr 0 1; join 1 | T1: cwr 0 2")
+    out.append("cfg c=1 | T0: spawn 1; spawn 2; join 1; join 2 | T1: crd 0 | T2: crd 0")
+    return list(dict.fromkeys(out))
